@@ -712,6 +712,18 @@ func packagePrepareWalkFn(root string, ignoreRules *ignorefiles.Ruleset) filepat
 		// valid for inclusion in a source bundle.
 		// We only allow regular files, directories, and symlinks to either
 		// of those as long as they are under the root directory prefix.
+		if info.Mode()&os.ModeSymlink != 0 {
+			// The package directory is moved to its final name after this
+			// walk, so a link with an absolute target can only be one that
+			// leaves the package or one that dangles afterwards.
+			target, err := os.Readlink(absPath)
+			if err != nil {
+				return fmt.Errorf("failed to read symlink %q: %w", relPath, err)
+			}
+			if filepath.IsAbs(target) {
+				return fmt.Errorf("module package path %q is a symlink with an absolute target", relPath)
+			}
+		}
 		absRoot, err := filepath.Abs(root)
 		if err != nil {
 			return fmt.Errorf("failed to get absolute path for root directory %q: %w", root, err)
